@@ -2,6 +2,7 @@ import PrefVerif.Driver.Util
 import PrefVerif.Driver.C20
 import PrefVerif.Driver.Voting
 import PrefVerif.Driver.C02
+import PrefVerif.Driver.C17
 open Lean PrefVerif.Driver
 
 def handlers : List (String × Handler) := [
@@ -9,7 +10,9 @@ def handlers : List (String × Handler) := [
   ("c20.matrix", C20.matrix),
   ("voting.tables", Voting.tables),
   ("voting.rule", Voting.rule),
-  ("c02.run", C02.runOps)
+  ("c02.run", C02.runOps),
+  ("c17.from_ordinal", C17.fromOrd),
+  ("c17.factorise", C17.fact)
 ]
 
 def dispatch (j : Json) : Json :=
